@@ -28,6 +28,8 @@ WRITE_KW = ("INSERT", "UPDATE", "DELETE", "REPLACE")
 BUCKET_CALLS = ("create_bucket", "update_bucket", "delete_bucket")
 SINGLE_EVENT_CALLS = ("insert_one", "replace", "replace_last", "delete")
 EVENT_WRITE_CALLS = SINGLE_EVENT_CALLS + ("insert_many",)
+# ("insert_many_bad", bucket, upsert ids, n_good): n_good fine rows followed by one whose end
+# does not fit SQLite's INTEGER -> executemany raises OverflowError after n_good rows
 READ_CALLS = ("get_event", "get_events", "get_eventcount")
 
 
@@ -107,15 +109,16 @@ class Shadow:
         self.digests = [dumper(self.db)]
         self.index = {self.digests[0]: [0]}
 
-    def apply(self, sql):
+    def apply(self, sql, digest=True):
         """-> rowcount, or None when the engine rejects the statement"""
         try:
             cur = self.db.execute(sql)
-        except sqlite3.Error:
+        except (sqlite3.Error, OverflowError):
             return None
-        d = self.dumper(self.db)
+        d = self.dumper(self.db) if digest else None
         self.digests.append(d)
-        self.index.setdefault(d, []).append(len(self.digests) - 1)
+        if digest:
+            self.index.setdefault(d, []).append(len(self.digests) - 1)
         return cur.rowcount
 
     def matches(self, digest, upto):
@@ -330,6 +333,10 @@ class Runner:
             elif name == "insert_many":
                 evs = [_ev(E, self.fresh(), eid=i) for i in spec[2]] + [_ev(E, self.fresh()) for _ in range(spec[3])]
                 st.insert_many(spec[1], evs)
+            elif name == "insert_many_bad":
+                evs = [_ev(E, self.fresh(), eid=i) for i in spec[2]] + [_ev(E, self.fresh()) for _ in range(spec[3])]
+                evs.append(E(timestamp=T0, duration=timedelta(days=200_000_000), data={"n": self.fresh()}))
+                st.insert_many(spec[1], evs)
             elif name == "replace":
                 st.replace(spec[1], spec[2], _ev(E, self.fresh()))
             elif name == "replace_last":
@@ -386,8 +393,10 @@ def model_op(call):
         return [3, 0]
     if name == "insert_many":
         if exp == "bulk-rejected":
-            return [14, [0] * len(spec[2])]
+            return [14, [0] * len(spec[2]), []]
         return [4, [0] * len(spec[2]), [0] * spec[3]]
+    if name == "insert_many_bad":
+        return [14, [0] * len(spec[2]), [0] * (spec[3] if exp == "bulk-failed" else 0)]
     if name == "replace_last":
         return [5, 0]
     if name == "replace":
@@ -462,6 +471,8 @@ def expectation(runner, spec):
         if spec[1] not in have and spec[3] > 0:
             return "bulk-rejected", True
         return None, False
+    if name == "insert_many_bad":
+        return ("bulk-failed" if spec[1] in have else "bulk-rejected"), True
     if name == "get_metadata":
         return None, spec[1] not in have
     return None, False
@@ -495,6 +506,9 @@ def oracles(r):
     sh = rec.shadow
     v06, v18 = [], []
     calls = rec.calls
+    # a bulk insert that failed after some rows leaves them uncounted: its own signature
+    partial = ":failed-bulk-insert" if any(c["spec"][0] == "insert_many_bad" and c["end_token"] > c["first_token"]
+                                           for c in calls) else ""
     for o in rec.obs:
         o["J"] = sh.matches(o["digest"], o["issued"])
     end_obs = {}
@@ -511,7 +525,7 @@ def oracles(r):
         c = calls[o["call"]]
         done_before = o["issued"] if o["kind"] == "call-end" else c["first_token"]
         if done_before - max(J) > THRESHOLD:
-            v06.append(("C06:unbounded-loss", f"{where}: {done_before} writes of completed calls issued, only the "
+            v06.append(("C06:unbounded-loss" + partial, f"{where}: {done_before} writes of completed calls issued, only the "
                         f"first {max(J)} are committed ({done_before - max(J)} > 50 would be lost)"))
         if o["kind"] == "call-end" and c["spec"][0] in BUCKET_CALLS and c["outcome"] is None and o["issued"] not in J:
             v06.append(("C06:bucket-op-not-durable", f"{where}: returned with {o['issued'] - max(J)} writes uncommitted"))
@@ -541,7 +555,7 @@ def oracles(r):
                 continue
             name = c["spec"][0]
             wrote = c["end_token"] > c["first_token"]
-            if name in EVENT_WRITE_CALLS and wrote and c["t_start"] - F_start > MAX_AGE:
+            if name in EVENT_WRITE_CALLS and wrote and c["outcome"] is None and c["t_start"] - F_start > MAX_AGE:
                 single = name != "insert_many" or len(c["spec"][2]) == 0
                 if single and o["issued"] not in J:
                     v18.append(("C18:old-write-not-flushed",
@@ -553,7 +567,7 @@ def oracles(r):
                                 f"the last flush, is not committed when the call returns"))
             for w in range(max(J), o["issued"]):
                 if rec.issue_time[w] - F > MAX_AGE:
-                    v18.append(("C18:pending-write-too-old",
+                    v18.append(("C18:pending-write-too-old" + partial,
                                 f"after call #{ci} {c['spec']}: write {w}, issued {(rec.issue_time[w] - F) / S:.6f} s "
                                 f"after the last instant at which nothing was pending, is still uncommitted"))
                     break
